@@ -142,11 +142,15 @@ CHECKS = {
           "rendering returns the tree; add_parens inserts exactly the parentheses the precedence/associativity rules require, yields a "
           "well-parenthesised tree for every tree and only adds parentheses - so minimal rendering then parsing is the identity on trees. "
           "Tied by rendering every operator pair/nesting at size 3 and random trees up to size 12 with the extracted add_parens/render, parsing "
-          "them with the real parser and comparing dumped ASTs node for node. Statements, functions and class members are not yet covered "
-          "(partial).", "DESIGN.md §6 C14"),
+          "them with the real parser and comparing dumped ASTs node for node. Statements: a model of parseStatement (the declaration look-ahead on raw "
+          "tokens, types with dimensions and qualified names, final/@tracked declarations, return, if/else, for with every initialiser, while, echo, "
+          "reset, measure, destroy, the conditional statement, assignment and expression statements, blocks) with the theorem that every well-formed "
+          "statement tree, nested to any depth, is parsed back from its rendering; tied by generated statement trees whose dump from the real parser "
+          "must equal the model's parse, and by single-token deletions on which both must agree about acceptance. Generic type arguments in "
+          "declarations, multi-declarators, functions and class members are covered by a 531-form syntax matrix only (partial).", "DESIGN.md §6 C14"),
    note="Trusted: Coq kernel; extraction; s-expression/token-spelling glue; AST dump through the public Lexer/Parser API. Fuel is existentially "
         "quantified in the theorem; the driver runs with 4*tokens+8 and reports if that is not enough.",
-   technique="Coq proof (mutual fuelled parser, 'eventually' induction over trees) + extraction-based round-trip correspondence"),
+   technique="Coq proof (mutual fuelled parsers for expressions and statements, 'eventually' induction over trees) + extraction-based round-trip correspondence and token-deletion differential"),
  "C15": dict(
    level=("proof", "Coq theorems (axiom-free) on a model of lexer.cpp for every source string: tokens and skipped trivia concatenate to the "
           "source, trivia is only whitespace and // comments, every token's reported line/column is the position of its first character "
